@@ -848,7 +848,8 @@ Definition note_op (s : state) (sid u : N) (t : tname) (w : what) (seq : Z) : st
     (send (ms1 ++ info_subs_offline t x1 u w (Some sid)) (put_top t x1 s), bcast_top_info t x1 u sid w)
   end.
 
-(* replyDelMsg (topic.go:2985-3094) for the range {low:1}: hard needs D (silently soft for a mere reader) *)
+(* replyDelMsg (topic.go:2984-3091, as of /repo 2721db4) for the range {low:1}: hard needs D (silently soft
+   without it), soft needs R *)
 Definition delmsg_op (s : state) (sid u : N) (t : tname) (hard : bool) : state * list out :=
   match get_top s t with
   | None => (s, [Skipped])
@@ -856,8 +857,8 @@ Definition delmsg_op (s : state) (sid u : N) (t : tname) (hard : bool) : state *
     if negb (sess_on s sid t) then (s, [Skipped]) else
     let p := if found t x u then get_pud x u else blank_pud in
     let mode := p_mode p in
-    if negb (has mode mD) && negb (is_reader mode) then (s, [Ctrl sid 403]) else
     let hard := hard && has mode mD in
+    if negb hard && negb (is_reader mode) then (s, [Ctrl sid 403]) else
     if (t_lastid x <? 1)%Z then (s, [Ctrl sid 400]) else
     if hard then
       (send (pres_subs_online t WDel (TMe u) (mkFlt mR 0 None None) (Some sid) ::
